@@ -58,6 +58,10 @@ def gen_template(rnd, ti):
         rnd.shuffle(perm)
         for (k, a), p in zip(atoms, perm):
             a['atomid'] = p
+        if rnd.random() < 0.35:
+            # only some atoms carry an atom id (particles added after a structure was read have none)
+            for k, a in rnd.sample(atoms, rnd.randint(1, max(1, n // 2))):
+                a.pop('atomid', None)
     inter = []
     for _ in range(rnd.randint(0, 6)):
         t = rnd.choice(['bonds', 'bonds', 'angles', 'constraints'])
